@@ -477,7 +477,8 @@ builtin_dirscan(spif_charptr_t param)
                 unsigned long len;
 
                 len = strlen(dp->d_name);
-                if (len < n) {
+                /* The name, the blank after it and the terminating NUL must all fit. */
+                if (len + 1 < n) {
                     strcat((char *) buff, dp->d_name);
                     strcat((char *) buff, " ");
                     n -= len + 1;
